@@ -62,6 +62,12 @@ def histories(draw: Any) -> Case:
     for m in msgs0:
         if draw(st.integers(0, 2)) == 0:
             m.ext = True
+    packed = draw(st.integers(0, 3)) == 0
+    if packed:
+        # documented option c.struct_packing_alignment (kept by every later version): the C receiver's structs are packed
+        al = draw(st.sampled_from([1, 2, 4, 8]))
+        for f in unit.files:
+            f.options.append(("c.struct_packing_alignment", al))
     versions = [unit]
     msgs = [msgs0]
     steps: List[List[str]] = []
@@ -78,7 +84,7 @@ def histories(draw: Any) -> Case:
         rand[j] = [draw(S.values(m)) for _ in range(2)]
     targets = ["py"]
     r = draw(st.integers(0, 9))
-    if r < 3:
+    if r < 3 or packed:
         targets.append("c")
     if r >= 7:
         targets.append("go")
